@@ -114,6 +114,9 @@ def short(s):
         "%s:%s=%s {%s}" % (f["key"], f["t"], f["st"], ",".join(v["k"] + ("(%d,%d)" % (v["a"], v["b"]) if v["k"] in ("range", "phone", "phonenp") else "(%d)" % v["a"] if v["k"] in ("minsize", "maxsize") else "") + ("'" if v["msg"] else "") for v in f["vs"])) for f in s["fields"]))
 
 
+_dev_seen = {}
+
+
 def judge(chk, triples, full_cases=200):
     """Equality with the prescribed observation; a difference that equals the spec's expectation under a named deviation
     (exported as `expdev`, guard evaluated by TLC) is classified as that deviation."""
@@ -130,9 +133,12 @@ def judge(chk, triples, full_cases=200):
             arch, short(s), exp["exc"][0], json.dumps(want), o.get("e") or ("%s %s" % (json.dumps(o["exc"]), json.dumps(o["errs"]))))
         if "e" not in o and o["exc"] == exp["exc"] and norm_errs(arch, o["errs"]) == {p: m for p, m in want}:
             desc += "; values expected %s observed %s" % (json.dumps(exp["vals"]), json.dumps(o["vals"]))
-        if dev and sum(1 for f in chk.failures if f["dev"] == dev) >= full_cases:
-            chk.fail(desc, {"scenario": short(s), "arch": arch}, dev=dev)       # occurrences of a classified deviation: keep the count, not the bulk
-            continue
+        if dev:
+            seen = _dev_seen.setdefault((id(chk), dev), [0])
+            seen[0] += 1
+            if seen[0] > full_cases:
+                chk.fail(desc, {"scenario": short(s), "arch": arch}, dev=dev)   # occurrences of a classified deviation: keep the count, not the bulk
+                continue
         chk.fail(desc, {"scenario": {k: s[k] for k in ("place", "nel", "cap", "fields", "archs")}, "arch": arch,
                         "expected": exp, "expdev": s.get("expdev", []), "observed": o}, dev=dev)
 
